@@ -208,6 +208,8 @@ def replay(beh, workdir, seed):
         try:
             if op == 'Build':
                 w.map = ExchangeMap(w.objs[0], w.objs[1], scale)
+                if step % 3 == 1:
+                    w.map.scale_factor = scale * 3 + 0.1       # the attribute rebound after construction: the map is what it was built as
                 if step % 2:
                     # the table the map hands out is read and then edited by the caller (lists emptied, entries merged): the map
                     # keeps working from its own construction
